@@ -1553,3 +1553,42 @@ class keypress_layout_keys:
             for label, f in moved_clauses(before_the_move(pref_col_maxcol=(None, None)), s, maxcol, m.x, cu.xy[1], m.line is not None, m):
                 yield what + "/" + label, f
         yield "view-follows-the-cursor-from-now-on", eq(s._shift_view_to_cursor, True)
+
+
+# ------------------------------------------------------------------------------------------------ Edit.set_caption
+
+from urwid import util as _util  # noqa: E402
+
+MARKUP = Opaque("Markup")
+PROTOCOLS.setdefault("Markup", type("MarkupProtocol", (Protocol,), {"kind": "Markup", "methods": {}})())
+
+
+@contract("urwid/util.py:decompose_tagmarkup", property=(), assumed=True, alias="for-an-edit",
+          notes="(used through contract_overrides of Edit.set_caption) markup -> (text, run-length attributes), or TagMarkupException "
+                "for malformed markup; what the pair is belongs to C17 (contracts/C17_markup.py).  Here: some str and some attributes.")
+class decompose_tagmarkup_e:
+    params = dict(tm=MARKUP)
+    result = Tup(STR, ATTRIB)
+    raises = (_util.TagMarkupException,)
+
+    def ensures_callee(a, result):
+        cur().ghost.setdefault("decomposed", []).append((a.tm, result))
+        return ()
+
+
+@contract(ED + "Edit.set_caption", property="C10", inline=INVALIDATE, contract_overrides={"urwid/util.py:decompose_tagmarkup": decompose_tagmarkup_e}, **GEOKW)
+class set_caption:
+    params = dict(caption=MARKUP)
+    raises = (_util.TagMarkupException,)
+    modifies = ("_caption", "_attrib", "_cache_maxcol")
+
+    def ensures(old, s, a, result):
+        made = cur().ghost.get("decomposed", [])
+        yield "caption-and-its-attributes-are-the-decomposed-markup", both(len(made) == 1, (both(mk_bool(made[0][0].e == a.caption.e), s._caption is made[0][1][0], same_field(s._attrib, made[0][1][1])) if len(made) == 1 else False))
+        yield "edit-text-cursor-selection-untouched", both(s._edit_text is old._edit_text, s._edit_pos == old._edit_pos, opt_eq(s.highlight, old.highlight),
+                                                            same_field(old.pref_col_maxcol, s.pref_col_maxcol), same_field(old._mask, s._mask))
+        yield "cached-layout-dropped-canvas-cache-told-once", both(nothing_cached(s), count_ev(s.trace, "_invalidate") == 1)
+        yield "layout-object-and-modes-untouched", both(*[same_field(old.fields[k], s.fields[k]) for k in ("_layout", "_align_mode", "_wrap_mode")], flag_same(old, s))
+
+    def on_raise(old, s, a, exc):
+        yield "malformed-markup-changes-nothing", both(editor_same(old, s), opt_eq(s._cache_maxcol, old._cache_maxcol), count_ev(s.trace, "_invalidate") == 0)
